@@ -86,7 +86,7 @@ class C06(Check):
                    'configuration->string mapping; it is checked in generated mode as a rider']
     PROBES = ('c06.generated-mode', 'c06.shipped-mode', 'c06.must-reject', 'c06.must-accept', 'c06.constant',
               'c06.undescribed-probed', 'c06.describe-repeated', 'c06.emitted-values-checked', 'c06.unexported-module',
-              'c06.driver-glitch')
+              'c06.driver-glitch', 'c06.features-compared')
 
     def gen_case(self, rng, tier):
         mode = 'generated' if rng.random() < 0.7 else 'shipped'
@@ -106,6 +106,22 @@ class C06(Check):
                     p['veto'] = None
             if len(specs) > 1 and rng.random() < 0.3:
                 specs[-1]['export'] = False
+            # features, and modules whose implementing class is derived from the class of another module
+            for s in specs:
+                if rng.random() < 0.25:
+                    s['features'] = rng.choice([['HasGenA'], ['HasGenB'], ['HasGenB', 'HasGenA']])
+            if rng.random() < 0.4:
+                import copy
+                s0 = rng.choice(specs)
+                d = copy.deepcopy(s0)
+                d['name'] = 'd' + s0['name']
+                d['derive'] = s0['name']
+                d['export'] = True
+                d['features'] = [f for f in rng.choice([[], ['HasGenA'], ['HasGenB'], ['HasGenA', 'HasGenB']])
+                                 if f not in s0.get('features', ())]
+                # inherited feature mixins stay in the class chain of the derived class
+                d['all_features'] = d['features'] + list(s0.get('features', ()))
+                specs.insert(specs.index(s0) + 1, d)
             shape['specs'] = specs
         else:
             shape['cfg'] = rng.choice(SHIPPED)
@@ -422,6 +438,12 @@ class C06(Check):
                 if md.get('interface_classes') != want:
                     res.append(Violation('C06.interface-class', s['base'], f'{s["name"]}: described {md.get("interface_classes")}, '
                                                                            f'class chain {ctx["impl"].get(s["name"])}'))
+                wantf = s.get('all_features', s.get('features', []))
+                cnt['c06.features-compared'] = cnt.get('c06.features-compared', 0) + 1
+                if list(md.get('features', [])) != list(wantf):
+                    res.append(Violation('C06.features', 'derived' if s.get('derive') else 'plain',
+                                         f'{s["name"]}: described features {md.get("features")}, the implementing class has '
+                                         f'{wantf} (class chain {ctx["impl"].get(s["name"])})'))
                 names = set(md['accessibles'])
                 for p in s['params']:
                     exp = p['export']
